@@ -980,6 +980,47 @@ func Monitor(prop string, c Case, sch *Schema, obs []OpObs) []Failure {
 					}
 				}
 				for _, s := range tx.TI.Called {
+					if !aft[s] && !touched[s] && !contains(tx.TI.Target, s) && s >= 0 && s < n {
+						// rejected by the resolver: one of its own Require is missing, or a candidate that
+						// itself passes its Require (as far as one level shows) Removes it - a state that was
+						// rejected for an unmet Require blocks nobody
+						// the largest subset of the candidates in which every Require is met (what the
+						// resolver's Require filter, run to its fixpoint, can keep at most)
+						closed := map[int]bool{}
+						for q, ok := range cand {
+							if ok && q >= 0 && q < n {
+								closed[q] = true
+							}
+						}
+						for changed := true; changed; {
+							changed = false
+							for q := range closed {
+								for _, rq := range sch.Defs[q].Require {
+									if rq < 0 || rq >= n || !closed[rq] {
+										delete(closed, q)
+										changed = true
+										break
+									}
+								}
+							}
+						}
+						// justified: a Require of its own did not make it into the target (missing, or dropped
+						// in its turn), or a candidate whose own Require can be met Removes it
+						just := !closed[s]
+						for _, rq := range sch.Defs[s].Require {
+							if !contains(tx.TI.Target, rq) {
+								just = true
+							}
+						}
+						for b := range closed {
+							if b != s && contains(sch.Defs[b].Remove, s) {
+								just = true
+							}
+						}
+						if !just {
+							add(tx.Line, "", "auto state %d was dropped from the auto mutation %v although its Require can be met and no candidate state whose own Require can be met removes it (active before %v, target %v)", s, tx.TI.Called, tx.TI.Before, tx.TI.Target)
+						}
+					}
 					if aft[s] || touched[s] || !contains(tx.TI.Target, s) {
 						// active, judged by a handler, or rejected by the
 						// resolver (relations; C02 covers the resolver)
@@ -1384,6 +1425,14 @@ func Monitor(prop string, c Case, sch *Schema, obs []OpObs) []Failure {
 							for _, s := range finalsDone {
 								if s != p && !aft[s] && setOf(tf.Active)[s] {
 									add(li, "", "state %d was rolled back although its State handler had completed", s)
+								}
+							}
+						} else if lastH.HName == "anystate" {
+							// every State / End handler had completed when the global handler panicked:
+							// nothing is taken back
+							for s := range setOf(tf.Active) {
+								if !aft[s] && !contains(ti.Called, sch.Exc) {
+									add(li, "", "state %d was rolled back although its State handler had completed (the panic was in AnyState)", s)
 								}
 							}
 						} else if strings.HasPrefix(lastH.HName, "end:") {
